@@ -60,6 +60,28 @@ pub fn gen(tier: &str, seed: u64) -> Gen {
         }
     }
     fams.push(("comments ending in runs of 0-4 backslashes x a following well-formed or ill-formed line".to_string(), nc, true));
+    // braces after runs of backslashes (an even run does not escape the brace), as a braced word
+    // and bare: every string of length <= 6 over { } \ a
+    let bs = all_strings(&["{", "}", "\\", "a"], if thorough { 7 } else { 6 });
+    let mut nb = 0;
+    for s in &bs {
+        if s.contains('\\') && (s.contains('{') || s.contains('}')) {
+            cases.push(ts(&format!("rec first\nrec {}", s)));
+            nb += 1;
+        }
+    }
+    fams.push(("every string of length<=6 over open brace, close brace, backslash and a letter (with a backslash and a brace) as the argument of the second command".to_string(), nb, true));
+    // control characters in bare text (NUL included) before well-formed and ill-formed text
+    let mut nz = 0;
+    for ctl in &["\u{0}", "\u{1}", "\u{7f}", "\u{0}\u{0}"] {
+        for (pre, post) in &[("rec a", "b\nrec c {"), ("rec a", " b\nrec \"c"), ("", "rec a [rec b"), ("rec a ", "\nrec {x}y"), ("rec a", "b; rec ok"), ("rec {a", "b}; rec c {")] {
+            let script = format!("{}{}{}", pre, ctl, post);
+            cases.push(ts(&format!("{}{}", PREFIX, script)));
+            cases.push(ts(&script));
+            nz += 2;
+        }
+    }
+    fams.push(("control characters (NUL included) in bare and braced text, followed by well-formed or ill-formed text".to_string(), nz, true));
     (cases, fams)
 }
 
